@@ -83,6 +83,12 @@ def parse(path):
                 target = buf
                 continue
             if key == "at":
+                ml = re.match(r'^(loop_end|loop_start)\s+(\d+)\s*:\s*(.*)$', rest)
+                if ml:
+                    buf = [ml.group(3)] if ml.group(3) else []
+                    cur["at"].append([int(ml.group(2)), buf, ml.group(1)])
+                    target = buf
+                    continue
                 mm = re.match(r'^(before|after)\s+"((?:[^"\\]|\\.)*)"\s*:\s*(.*)$', rest)
                 if not mm: raise SpecError(f"{path}:{ln}: bad at")
                 buf = [mm.group(3)] if mm.group(3) else []
